@@ -530,6 +530,24 @@ class C07(PropBase):
                     prog = "$edi %d %d %s =" % (l, r, op) if (l + r) % 3 else "$T1 %d = $T2 %d = $esi $T1 $T2 %s =" % (l, r, op)
                     addA(100, gcps, True, regs, mb, mh, [W("4", 100, 16, 8, 4, 0, "1", prog)])
                     dist["operator_grid"] = dist.get("operator_grid", 0) + 1
+        # callee register files WITHOUT $ebp (and, separately, without $esp) x programs that do not read the missing register
+        # (seeded C07-9: "$ebp only needed by the programs that read it"): walker.rs docs — a program errors out when the
+        # callee's $ebp or $esp is unknown, whatever it reads.  No randomness used here.
+        no_ebp_progs = ["$T0 .raSearch = $eip $T0 ^ = $esp $T0 4 + =", "$eip .raSearch ^ = $esp .raSearch 4 + =",
+                        "$eip .raSearchStart ^ = $esp .raSearchStart 4 + = $ebx $ebx =", "$eip 4096 = $esp 9 =",
+                        "$eip $esp ^ = $esp $esp 4 + =", "$eip $esp .cbLocals + .cbSavedRegs + ^ = $esp $esp 8 + = $esi 7 =", "", "$edi .undef ="]
+        no_esp_progs = ["$eip 4096 = $esp 9 =", "$eip $ebp 4 + ^ = $esp $ebp 8 + =", "$T0 $ebp = $eip $T0 4 + ^ = $ebp $T0 ^ = $esp $T0 8 + =",
+                        "$eip $ebp 16 @ ^ = $esp $ebp 8 + =", "", "$esi 7 ="]
+        for hasgc in (False, True):
+            for sv, lo, gcps in ((0, 0, 0), (4, 0, 0), (4, 8, 4)):
+                for regs in ("esp=%d,ebx=9,eip=77" % ESP, "esp=%d,eip=1073745920" % ESP, "esp=%d" % ESP, "esp=%d,ebx=9,esi=5,edi=6,eip=77" % ESP):
+                    for prog in no_ebp_progs:
+                        addA(100, gcps, hasgc, regs, ESP - 16, imgw, [W("4", 100, 16, 8, sv, lo, "1", prog)])
+                        dist["missing_ebp_or_esp"] = dist.get("missing_ebp_or_esp", 0) + 1
+                for regs in ("ebp=%d,ebx=9,eip=77" % (ESP + 16), "ebp=%d" % (ESP + 16), "ebp=%d,ebx=9,esi=5,edi=6,eip=1073745920" % (ESP + 16)):
+                    for prog in no_esp_progs:
+                        addA(100, gcps, hasgc, regs, ESP - 16, imgw, [W("4", 100, 16, 8, sv, lo, "1", prog)])
+                        dist["missing_ebp_or_esp"] = dist.get("missing_ebp_or_esp", 0) + 1
         # record sets: overlaps, duplicates, inconsistent type / has_program, CFI fallback
         nrs = 5000 if tier == "quick" else 40000
         gp = ["$eip .raSearch ^ = $esp .raSearch 4 + =", "$eip 4096 = $esp 9 =", "$eip .undef 1 + =", "$eip $esp ^ = $esp $esp 4 + = $ebx 1 ="]
@@ -602,6 +620,15 @@ class C07(PropBase):
                     off = 16 + sv + lo
                     img[off:off + 4] = (MODBASE + 100).to_bytes(4, "little")
                     cases.append("|".join(["B", ctxs[0], valid, str(ESP - 16), bytes(img).hex(), W("0", 100, 16, 8, sv, lo, "0", abp)]))
+                    dist["by_kind"]["B"] += 1
+                    dist["real_walker"] += 1
+        # the same through the real walker: validity sets without ebp (frame-data programs that never read $ebp must still fail),
+        # without esp, and FPO records for comparison
+        for valid in ("eip,esp", "eip,esp,ebx,esi,edi", "esp", "eip,ebp,ebx", "eip,ebx,esi,edi"):
+            for prog in ("$T0 .raSearch = $eip $T0 ^ = $esp $T0 4 + =", "$eip .raSearch ^ = $esp .raSearch 4 + =", "$eip $esp ^ = $esp $esp 4 + =",
+                         "$eip $esp ^ = $esp $esp 4 + = $ebx 1 =", "$eip $ebp 4 + ^ = $esp $ebp 8 + =", "$eip $esp ^ = $esp $esp 4 + = $ebp .undef ="):
+                for sv in (0, 4):
+                    cases.append("|".join(["B", ctxs[0], valid, str(ESP), stackB, W("4", 100, 16, 8, sv, 0, "1", prog)]))
                     dist["by_kind"]["B"] += 1
                     dist["real_walker"] += 1
         # the `@` rule through the real walker: glued `=@` / a name containing `@`, with .raSearch-dependent statements
